@@ -105,6 +105,7 @@ typedef struct sim_globals {
     sim_diag_cb diag_cb;
     int in_cb;
     int frozen; /* reporting: hooks are inert */
+    FILE *steplog; /* debugging aid: --steplog FILE logs every scheduling point */
 } sim_globals;
 
 extern sim_globals G;
